@@ -112,6 +112,25 @@ def load_variants(prop: str):
             if cb['property'] == prop:
                 with open(patch_p) as f:
                     out.append(('seeded/' + os.path.basename(d), 'patch', f.read(), cb['rules'][0], meta.get('summary', '')))
+    # behaviour-preserving refactorings written by independent engineers (round 4): every check has to stay silent on each of them
+    # (replayed for the properties anchored in a file the patch touches; tools_memtest.py refactors/* runs the full matrix)
+    anchored = set()
+    try:
+        with open(os.path.join(HERE, 'properties.jsonl')) as f:
+            for line in f:
+                pj = json.loads(line)
+                if pj.get('id') == prop:
+                    anchored = {os.path.basename(x) for x in pj.get('anchors', {}).get('files', [])}
+    except OSError:
+        pass
+    for d in sorted(glob.glob(os.path.join(HERE, 'refactors', '*'))):
+        patch_p = os.path.join(d, 'patch.diff')
+        if os.path.exists(patch_p):
+            with open(patch_p) as f:
+                txt = f.read()
+            touched = {os.path.basename(m) for m in re.findall(r'^\+\+\+ b/(\S+)', txt, re.M)}
+            if touched & anchored:
+                out.append(('refactor/' + os.path.basename(d), 'patch', txt, 'silent', 'behaviour-preserving refactoring'))
     # known findings with a written (uncommittable) repair: on the repaired tree the finding must be gone and nothing new reported
     for p in sorted(glob.glob(os.path.join(HERE, 'findings', f'{prop}-*-candidate-fix.diff'))):
         rule = os.path.basename(p).split('-')[1]
